@@ -1,5 +1,6 @@
 import Amgcl.Proofs.AmgLast
 import Amgcl.Properties.C08
+import Amgcl.Properties.C08b
 /-!
 # C03 — every coarse level is the (re-scaled) Galerkin product; rebuild keeps it so
 
@@ -60,6 +61,30 @@ theorem galerkin_nrows (nt : Nat) (hnt : nt ≤ 16) (A P R : CRS K) (hP : P.WF) 
   have hnt' : ¬ nt > 16 := by omega
   simp only [C08.product_dispatch, hnt', if_false]
   exact (C08.saad_wf R (spgemmSaad A P false) (C08.saad_wf A P hP false).2.2 false).1
+
+/-- the same for **every** thread count, i.e. for both SpGEMM algorithms (`product` switches to the row-merge
+algorithm above 16 threads; `C08b.product_indep_threads`) -/
+theorem galerkin_get_any (nt : Nat) (A P R : CRS K) (hA : A.WF) (hP : P.WF) (hR : R.WF)
+    (hRA : R.ncols = A.nrows) (i j : Nat) (hi : i < R.nrows) :
+    (galerkin nt A P R).get i j
+      = ∑ k ∈ range R.ncols, R.get i k * (∑ l ∈ range A.ncols, A.get k l * P.get l j) := by
+  have hAPwf : (product nt A P false).WF := by
+    rw [C08.product_dispatch]; split
+    · exact (C08b.rmerge_wf A P hP).2.2
+    · exact (C08.saad_wf A P hP false).2.2
+  unfold galerkin
+  rw [C08b.product_indep_threads nt 1 R (product nt A P false) hR hAPwf false false i j]
+  have h1 : ¬ (1 > 16) := by omega
+  simp only [C08.product_dispatch, h1, if_false]
+  rw [C08.saad_get R _ hR (by simpa [C08.product_dispatch] using hAPwf) false i j hi]
+  apply sum_congr rfl
+  intro k hk
+  have hk' : k < A.nrows := by rw [← hRA]; exact mem_range.mp hk
+  have h2 : (product nt A P false).get k j = (spgemmSaad A P false).get k j := by
+    have := C08b.product_indep_threads nt 1 A P hA hP false false k j
+    rw [this, C08.product_dispatch, if_neg h1]
+  rw [C08.product_dispatch] at h2
+  rw [h2, C08.saad_get A P hA hP false k j hk']
 
 end galerkin
 
